@@ -223,6 +223,11 @@ func seqProbe() string {
 
 func jsonProbe() string {
 	var b strings.Builder
+	rd := strings.NewReader(" { \"a\" : [ 1 , \"x y\" ] }\n {\"b\":\" \\t \"} ")
+	for i := 0; i < 3; i++ {
+		m, raw, err := mxj.NewMapJsonReaderRaw(rd)
+		b.WriteString(jv.Fp(m) + string(raw) + fmt.Sprint(err) + "|")
+	}
 	for _, d := range c18json {
 		m, err := mxj.NewMapJson([]byte(d))
 		j, _ := m.Json()
@@ -393,9 +398,19 @@ func (c18) Case(c *core.Ctx) {
 		case "fieldsep":
 			before = fieldsepProbe()
 		}
+		jsonBefore := ""
+		if sc.class != "attr-case" {
+			jsonBefore = jsonProbe() // no option setter documents an effect on the JSON codec
+		}
 		sc.apply()
 		sc.model(model)
 		hist = append(hist, sc.name)
+		if jsonBefore != "" {
+			if jsonAfter := jsonProbe(); jsonAfter != jsonBefore {
+				c.Violate("c18-interference:json", sc.name+" changed the behaviour of the JSON codec", core.D{"history": hist, "before": jsonBefore, "after": jsonAfter})
+				return
+			}
+		}
 		c.Count("setter-calls-checked")
 		c.Distinct("setter-forms", core.HashStr(sc.name))
 		if sc.tog {
